@@ -1006,6 +1006,10 @@ def run_gated(ct, msgs, progs, events):
                 if op == "c":
                     await req.close()
                     return "c:ok"
+            except asyncio.CancelledError:
+                if box.get("teardown"):
+                    raise
+                return op + ":cancelled-by-the-request-object"     # nobody cancelled this task
             except Exception as exc:  # noqa
                 return op + ":" + err(exc)
             k, _ = stream_args(op)
@@ -1019,6 +1023,10 @@ def run_gated(ct, msgs, progs, events):
                     except StopAsyncIteration:
                         fin = "end"
                         break
+            except asyncio.CancelledError:
+                if box.get("teardown"):
+                    raise
+                fin = "!cancelled-by-the-request-object"
             except Exception as exc:  # noqa
                 fin = "!" + err(exc)
             await agen.aclose()
@@ -1040,7 +1048,8 @@ def run_gated(ct, msgs, progs, events):
         for ev in events:
             if ev == "D":
                 if st["opened"] < min(st["calls"], len(msgs)):
-                    gates[st["opened"]].set_result(None)
+                    if not gates[st["opened"]].done():       # (a cancelled drain takes its gate with it)
+                        gates[st["opened"]].set_result(None)
                     st["opened"] += 1
             else:
                 i = int(ev[1:])
@@ -1052,6 +1061,7 @@ def run_gated(ct, msgs, progs, events):
         box["steps"] = list(loop.steps)
         box["disc"] = 1 if req._is_disconnected else 0
         loop.names = None
+        box["teardown"] = True
         pending = [t for t in asyncio.all_tasks(loop) if t is not asyncio.current_task() and not t.done()]
         for t in pending:
             t.cancel()
@@ -1156,7 +1166,7 @@ def _methods_and_multipart():
 
     for method in ("GET", "HEAD", "POST", "PUT", "DELETE", "OPTIONS", "PATCH"):
         for access, want in (("body", whole), ("stream", whole), ("json", _json.dumps(_json.loads(whole), sort_keys=True))):
-            for disc in (None, 0, 1, 2):
+            for disc in (None, 0, 1, 2, 3):
                 n += 1
                 label = "asgi_method %s %s %s" % (method, access, "complete" if disc is None else "disconnect-after-%d" % disc)
                 try:
@@ -1183,7 +1193,7 @@ def _methods_and_multipart():
             out.append({"line": "wsgi_method %s body" % method, "out": repr(got)[:200],
                         "why": "%s request on WSGI: body is %r, the client sent %r" % (method, got, whole)})
     for method in ("POST", "PUT"):
-        for disc in (None, 0, 1, 2):
+        for disc in (None, 0, 1, 2, 3):      # 3: every byte of the form has arrived, the terminating message has not
             n += 1
             label = "asgi_multipart %s %s" % (method, "complete" if disc is None else "disconnect-after-%d" % disc)
             try:
@@ -1198,7 +1208,7 @@ def _methods_and_multipart():
                 out.append({"line": label, "out": repr(res)[:200],
                             "why": "multipart form read from the stream, %s: got %s" % (
                                 "complete upload" if disc is None else
-                                "client disconnected after %d of 3 chunks (ClientDisconnect expected)" % disc, repr(res[:1])[:160])})
+                                "client disconnected after %d of 3 chunks, before the final message (ClientDisconnect expected)" % disc, repr(res[:1])[:160])})
     return out, n
 
 
